@@ -476,7 +476,11 @@ pub fn encode_with_dist_header_multi(terms: &[&OwnedTerm]) -> Result<Vec<u8>, En
 
     let long_atoms = atoms.iter().any(|a| a.name.len() > 255);
     if long_atoms {
-        buf[flags_start_pos + flags_len - 1] |= 0x01;
+        // The LongAtoms bit is the least significant bit of the half byte that follows
+        // the last atom cache reference: the low nibble of the last flag byte for an even
+        // number of references, the high nibble for an odd number.
+        let long_atoms_flag = if atoms.len() % 2 == 0 { 0x01 } else { 0x10 };
+        buf[flags_start_pos + flags_len - 1] |= long_atoms_flag;
     }
 
     for (index, atom) in atoms.iter().enumerate() {
